@@ -7,7 +7,7 @@ use proptest::prelude::*;
 use serde::{Deserialize, Serialize};
 use serde_json::{json, Value};
 
-use crate::db::{self, QRes};
+use crate::db::{self, QErr, QRes};
 use crate::eval::{self, Query};
 use crate::gen::{self, Layout, LogicalTable, Storage};
 use crate::model::Cell;
@@ -242,6 +242,9 @@ pub fn check(case: &Case, env: &mut CaseEnv) -> Result<(), Failure> {
         match (a, b) {
             (Ok(_), Ok(_)) => {}
             (Err(x), Err(y)) if std::mem::discriminant(x) == std::mem::discriminant(y) => env.declined(),
+            // SUM / AVG whose inputs' absolute values exceed i64 in total: whether a partial sum overflows depends on
+            // the order of addition, i.e. on the layout; C06 allows either outcome
+            (Err(QErr::Overflow), Ok(_)) | (Ok(_), Err(QErr::Overflow)) if c04::sum_may_overflow(&gq.q, &rows) => env.class("outcome:partial_sum_may_overflow"),
             _ => {
                 return Err(Failure::mismatch(format!(
                     "`{}`: outcome depends on the layout: A [{}] -> {}, B [{}] -> {}",
